@@ -24,6 +24,18 @@ def run(case, idx):
                 o = f'deactivate={int(deactivate())}'
             elif a[0] == 'enabled':
                 (deal.enable if a[1] else deal.disable)(); o = f'enabled={int(a[1])}'
+            elif a[0] == 'import_ext':
+                # a compiled extension module of the standard library, not imported yet in this process: it must be the real module
+                name = a[1]
+                try:
+                    mod = importlib.import_module(name); r = 'ok'
+                    if not [k for k in vars(mod) if not k.startswith('_')]: r = 'ok-but-empty-module'
+                except ModuleNotFoundError:
+                    r = 'ok'          # not built on this platform: nothing to observe
+                    sys.modules[name] = None
+                except BaseException as e:
+                    r = type(e).__name__
+                o = f'import {name}={r} registered={int(name in sys.modules)}'
             else:
                 name, src = a[1], a[2]
                 layout = a[3] if len(a) > 3 else 'module'
